@@ -1,0 +1,56 @@
+//! Verification hooks, compiled only with `--cfg rivia_verif`
+//!
+//! A process global callback is invoked immediately before a [`MemfsGuard`] is acquired, right after
+//! it was acquired and when it is about to be released (still holding the lock). It lets an external
+//! harness serialise threads at critical section boundaries, enumerate interleavings and detect
+//! nested acquisition. Nothing here is compiled into normal builds.
+use std::sync::{Arc, RwLock};
+
+/// Kind of guard taken on the shared Memfs state
+#[derive(Debug, Clone, Copy, PartialEq, Eq)]
+pub enum GuardKind {
+    Read,
+    Write,
+}
+
+/// Guard life cycle events
+#[derive(Debug, Clone, Copy, PartialEq, Eq)]
+pub enum GuardEvent {
+    BeforeAcquire(GuardKind),
+    Acquired(GuardKind),
+    Releasing(GuardKind),
+}
+
+/// Callback type for guard events
+pub type GuardHook = Arc<dyn Fn(GuardEvent) + Send + Sync>;
+
+static HOOK: RwLock<Option<GuardHook>> = RwLock::new(None);
+
+/// Install or remove the process global guard hook
+pub fn set_guard_hook(hook: Option<GuardHook>) {
+    *HOOK.write().unwrap_or_else(|e| e.into_inner()) = hook;
+}
+
+pub(crate) fn emit(event: GuardEvent) {
+    let hook = HOOK.read().unwrap_or_else(|e| e.into_inner()).clone();
+    if let Some(hook) = hook {
+        hook(event);
+    }
+}
+
+/// Emits `BeforeAcquire` on creation and `Acquired` when dropped, i.e. once the acquiring function's
+/// return value (the guard) has been computed
+pub(crate) struct Acquiring(GuardKind);
+
+impl Acquiring {
+    pub(crate) fn new(kind: GuardKind) -> Self {
+        emit(GuardEvent::BeforeAcquire(kind));
+        Acquiring(kind)
+    }
+}
+
+impl Drop for Acquiring {
+    fn drop(&mut self) {
+        emit(GuardEvent::Acquired(self.0));
+    }
+}
